@@ -542,8 +542,14 @@ C17_Clauses(cfg, S) ==
                                 IsFunc(BlocksOf(j)[i]) => P(BlocksOf(j)[i])
   IN [
    \* exec receives the prep value: same token, same object, not wrapped again
+   \* (in generated scenarios the Result-style prep function of every other node hands a nil value over as an error
+   \* Result, flyt.NewErrorResult(e): its value is nil, and nil is what exec receives - whether a Result-style exec is
+   \* also shown the error state is left open here; a second wrapping is not)
    prepToExec |-> ForFuncBlocks(LAMBDA b : \A k \in 1..Len(b.execs) :
-                     b.execs[k].arg = b.prep.val /\ b.execs[k].aid /\ b.execs[k].aw = "raw"),
+                     LET asEres == "genmode" \in DOMAIN cfg /\ cfg.genmode # "" /\ Sty(b)[1] = "r"
+                                   /\ (b.node + cfg.variant) % 2 = 0 /\ b.prep.out = "ok" /\ b.prep.val = NIL IN
+                     b.execs[k].arg = b.prep.val /\ b.execs[k].aid
+                     /\ (b.execs[k].aw = "raw" \/ (asEres /\ b.execs[k].aw = "eres"))),
    \* post receives the prep value
    prepToPost |-> ForFuncBlocks(LAMBDA b : b.posts # <<>> =>
                      b.posts[1].prep = b.prep.val /\ b.posts[1].pid),
